@@ -15,5 +15,5 @@ def run():
     acc.extra["score_calls"] = len(sc)
     rc = v.finish()
     vlib.write_evidence(PID, acc.coverage("exact, edited (2-15% word deletions/substitutions/insertions), truncated and concatenated corpus texts, scenario files, prose; every call of score() is an event carrying the library's edit script and both token-id sequences; non-trivial = scored candidates with distance > 0"),
-        ["go-diff is an environment: its script is checked for validity on every call, not trusted", "Confidence == 1 - dist/|K| is compared bit-exactly by the recorder", "token ids < 0xD800 (a dictionary beyond 55 295 words is not exercised)"], time.time() - t0, len(v.violations))
+        ["go-diff is an environment: its script is checked for validity on every call, not trusted", "Confidence == 1 - dist/|K| is compared bit-exactly by the recorder", "a dictionary of 56 080 words is exercised (ids beyond the surrogate range); beyond 1.1 M words ids leave the rune range"], time.time() - t0, len(v.violations))
     return rc
